@@ -126,30 +126,29 @@ func CapitalizeSegments(segment string) string {
 	return ``
 }
 
+// RegexpQuote writes the regexp source str between slashes such that the lexer reads the same source back:
+// the lexer removes the backslash of \/ and keeps every other escape sequence as it is, ends the regexp at a
+// bare slash and rejects a line feed or NUL character.
 func RegexpQuote(b io.Writer, str string) {
 	WriteByte(b, '/')
+	escaped := false
 	for _, c := range str {
-		switch c {
-		case '\t':
-			WriteString(b, `\t`)
-		case '\n':
-			WriteString(b, `\n`)
-		case '\r':
-			WriteString(b, `\r`)
-		case '/':
-			WriteString(b, `\/`)
-		case '\\':
-			WriteString(b, `\\`)
-		default:
-			if c < 0x20 {
-				_, err := fmt.Fprintf(b, `\u{%X}`, c)
-				if err != nil {
-					panic(err)
-				}
-			} else {
-				WriteRune(b, c)
-			}
+		switch {
+		case escaped:
+			// the character after a backslash is part of the escape sequence
+			escaped = false
+		case c == '\\':
+			escaped = true
+		case c == '/':
+			WriteByte(b, '\\')
+		case c == '\n':
+			WriteByte(b, '\\')
+			c = 'n'
+		case c == 0:
+			WriteString(b, `\x0`)
+			c = '0'
 		}
+		WriteRune(b, c)
 	}
 	WriteByte(b, '/')
 }
